@@ -442,6 +442,65 @@ def h_nonneg(ctx, d, kinds):
     ctx.prove(f"C12.mass_is_F_volume_of_image.{d}d", EQ(got, SymReal(z3.simplify(cop.volume_term(lo, hi)))), info={"kinds": kinds}, replay=(replay_orthant, scen))
 
 
+class _Toms748Stub:
+    """scipy.optimize.toms748 contract: some root of f in [a, b]; ValueError when f(a) and f(b) have the same sign"""
+
+    @staticmethod
+    def toms748(f, a, b, **kw):
+        ctx = V.get_context()
+        if ctx is None or getattr(ctx, "concrete", False):
+            from scipy import optimize as _o
+
+            return _o.toms748(f, a, b, **kw)
+        fa, fb = f(a), f(b)
+        if bool(fa * fb > 0):
+            raise ValueError("f(a) and f(b) must have different signs")
+        x = ctx.real("root")
+        ctx.assume(AND(x >= a, x <= b))
+        ctx.assume(EQ(f(x), 0))
+        return x
+
+    def __getattr__(self, n):
+        from scipy import optimize as _o
+
+        return getattr(_o, n)
+
+
+shims.install(LCM, optimize=_Toms748Stub())
+
+
+def replay_inverse_tail(sc):
+    """real model (distinct HEM margins): inverse_tail_integral(i, y) queried for margin 0 then margin 1 at the same level, then again"""
+    mdl = _finite_levycopula(2)
+    bad = []
+    for y in (0.4, -0.3, 1.1):
+        for i in (0, 1, 0, 1):
+            x = float(mdl.inverse_tail_integral(i, y))
+            back = _tail_ref(mdl, i, x)
+            if abs(back - y) > 1e-8 * max(1.0, abs(y)):
+                bad.append(f"inverse_tail_integral({i}, {y}) = {x!r} but U_{i}({x!r}) = {back!r}")
+    return bool(bad), "HEM margins (distinct) + Clayton: " + "; ".join(bad[:3])
+
+
+def h_inverse_tail(ctx, d, order):
+    """the inverse of a marginal tail integral, asked for several margins at the same level in the given order (any memoisation must
+    keep the margins apart): away from the clamped ends the result x satisfies U_i(x) = y"""
+    mdl, models, cop = make_model(ctx, d)
+    y = ctx.real("y")
+    ctx.assume(y != 0)
+    rp = (replay_inverse_tail, lambda m: {})
+    for k, i in enumerate(order):
+        try:
+            x = mdl.inverse_tail_integral(i, y)
+        except ValueError:
+            continue  # level outside the range of the tail integral on the search interval
+        clamp = (1e-20, -1e-20)
+        if not V.is_sym(x) and x in clamp:
+            continue
+        back = mdl.marginal_tail_integral(i, x)
+        ctx.prove("C12.inverse_tail_integral_inverts_the_tail_integral", AND(EQ(back, y), (x > 0) if bool(y > 0) else (x < 0)), info={"margin": i, "call": k, "order": list(order)}, replay=rp)
+
+
 def h_twin(ctx):
     """sensitivity twin: dropping one corner term of the 2-d formula must be caught"""
     mdl, models, cop = make_model(ctx, 2)
@@ -525,11 +584,14 @@ def harnesses(tier):
         hs.append(Harness(f"nonneg2d.{'.'.join(kinds)}", h_nonneg, {"d": 2, "kinds": kinds}, max_paths=500))
     for kinds in itertools.product(("neg", "pos"), repeat=3):
         hs.append(Harness(f"nonneg3d.{'.'.join(kinds)}", h_nonneg, {"d": 3, "kinds": kinds}, max_paths=500))
+    for order in ((0, 1), (1, 0, 1), (0, 0, 1)):
+        hs.append(Harness(f"inverse_tail.2.{''.join(map(str, order))}", h_inverse_tail, {"d": 2, "order": order}, max_paths=2000))
+    hs.append(Harness("inverse_tail.3.0212", h_inverse_tail, {"d": 3, "order": (0, 2, 1, 2)}, max_paths=4000))
     hs.append(Harness("twin", h_twin, twin="must_fail"))
     return hs
 
 
-EXPECT = ["C12.fast_eq_general.2d", "C12.fast_eq_general.3d", "C12.tail_integral_is_signed_tail_mass", "C12.margin_sum.2d", "C12.margin_sum.3d",
+EXPECT = ["C12.inverse_tail_integral_inverts_the_tail_integral", "C12.fast_eq_general.2d", "C12.fast_eq_general.3d", "C12.tail_integral_is_signed_tail_mass", "C12.margin_sum.2d", "C12.margin_sum.3d",
           "C12.submargin_mass_is_I_margin_volume.3d", "C12.additive_split.2d", "C12.additive_split.3d", "C12.nonneg_in_orthant.2d",
           "C12.nonneg_in_orthant.3d"]
 
